@@ -26,12 +26,18 @@ HOW = {'eval': 'replay driver `eval` (FileBuilder::eval_string; payload = all to
 # parameter name and shadows the environment symbol inside the body (every other reserved word is refused when the call binds
 # it).  Clause: "binding a reserved word is an error" / _index.md "reserved ... can not be used as a named binding".
 KNOWN = [('func_param', 'env'), ('func_param2', 'env'), ('map_param', 'env'), ('reduce_param', 'env')]
-# `ucg build` only (the type checker; eval_string is right): a parameter whose name is also an EARLIER top-level binding is typed as that
-# binding instead of hiding it: `let q = "s"; let f = func(q) => q + 1; let r = f(1);` -> "Type error: Expected str but got int" (r is 2
-# under eval_string).  Clause: "a function sees ... the bindings that existed where it was defined plus its arguments" (the argument
-# must hide the outer name).  Excluded from the buildfile runs exactly: programs in which a function parameter is also the name of an
-# earlier top-level binding that is not an integer (the arguments of all generated calls are integers, so an integer outer binding
-# happens to type-check).  map / filter / reduce with an inline function, later bindings, module locals and `item` are not affected.
+# `ucg build` only (the type checker; eval_string is right): the type checker binds a function's parameters in the FILE scope.
+#  (1) a parameter that is also an earlier top-level binding is typed as that binding instead of hiding it:
+#      `let q = "s"; let f = func(q) => q + 1; let r = f(1);` -> "Type error: Expected str but got int" (r is 2 under eval_string);
+#  (2) after a call the parameter's name keeps the argument's type (for some bodies, e.g. a bare parameter or a literal):
+#      `let f = func(x, p) => x; let p = {a = 1}; let c = f(0, 3); let d = p.a;` -> "Type error: Invalid field selector";
+#      `let p = func(p) => p; let c = p(0); let d = p(1);` -> "Type error: Not a callable type: int".
+# Clauses: "a function sees ... the bindings that existed where it was defined plus its arguments" (the argument must hide the
+# outer name) and "neither its parameters ... leak into the caller".  Valid programs are refused; no invalid program is admitted (the
+# VM still refuses a leaked name).  Excluded from the buildfile runs exactly: programs in which a function parameter is also the name
+# of a top-level binding of the file (earlier or later, including the function itself) that is not an integer -- all generated call
+# arguments are integers, so an integer outer binding type-checks.  map / filter / reduce with an inline function, module locals and
+# `item` are not affected.
 KNOWN_BUILD = 'typed_shadow'
 
 POOL = ['a', 'b', 'c', 'd', 'p', 'q', 'r', 'x', 'y', 'item', 'u', 'acc']
@@ -178,6 +184,7 @@ class Gen:
         self.rnd = rnd
         self.avoid_typed_shadow = avoid_typed_shadow
         self.scope = {}
+        self.param_names = set()
         self.stmts, self.after = [], []
 
     def kinds(self, sc, hide=()):
@@ -223,24 +230,25 @@ class Gen:
         t = rnd.choice(tups)
         return ('fld', t, rnd.choice(list(sc[t])))
 
-    def fresh(self):
-        free = [n for n in POOL if n not in self.scope]
+    def fresh(self, integer):
+        free = [n for n in POOL if n not in self.scope and (integer or not self.avoid_typed_shadow or n not in self.param_names)]
         return self.rnd.choice(free) if free else None
 
     def step(self):
         rnd = self.rnd
-        name = self.fresh()
-        if name is None:
-            return False
         sc = self.scope
         r = rnd.random()
+        name = self.fresh(r < 0.34)
+        if name is None:
+            return False
         if r < 0.34:
             e = self.expr(sc, 2)
             self.stmts.append('let %s = %s;' % (name, src(e)))
             sc[name] = ev(e, sc)
         elif r < 0.58:
-            pool = [n for n in POOL if isinstance(sc.get(n, 0), int)] if self.avoid_typed_shadow else POOL    # KNOWN_BUILD
+            pool = [n for n in POOL if isinstance(sc.get(n, 0), int) and n != name] if self.avoid_typed_shadow else POOL    # KNOWN_BUILD
             params = rnd.sample(pool, rnd.randint(1, 2))
+            self.param_names.update(params)
             inner = dict(sc)
             inner.update((p, 0) for p in params)             # inside the body the parameters hide outer bindings of the same name
             body = self.expr(inner, 2)
@@ -330,7 +338,7 @@ def standin_prefix_values_build(tier, seed):
             prev = aft
         cases.append('\n'.join(lines + tail))
     res = R.driver('buildfile', cases)
-    bound = '%d seeded programs as in prefix_values, each binding pinned to the reference value right after it is made and again at the end of the file [KNOWN_BUILD: no parameter named like an earlier non-integer binding]' % len(progs)
+    bound = '%d seeded programs as in prefix_values, each binding pinned to the reference value right after it is made and again at the end of the file [KNOWN_BUILD: no parameter named like a non-integer top-level binding]' % len(progs)
     for src_, (st, out) in zip(cases, res):
         if st != 'OK':
             return dict(name='prefix_values_build', bound=bound, cases=len(cases), status='violation',
